@@ -29,6 +29,9 @@ CONSTANTS W,          \* set of worker ids (small naturals)
                       \* once; FALSE: before the fix (same idle worker, same refused input, forever = "livelock")
           IgnoreLate, \* TRUE: current code - a result arriving from a worker whose death was already
                       \* handled is ignored; FALSE: the pool before the fix (pop(0) on an empty list)
+          RetRes,     \* Pool.run(return_results=...): FALSE = results reach the caller only through worker_callback
+          CallSrc,    \* TRUE: a second input source is a per-worker callable source(worker); gen[x] = the worker it was
+                      \* evaluated for when input x was drawn (a retried input keeps the tuple it was drawn with)
           Reduced, DetOrder, Hist
 
 Min(S) == CHOOSE x \in S : \A y \in S : x <= y
@@ -41,6 +44,8 @@ variables
   nxt = 1, ret = <<>>, outcome = "running", ready = {}, lastHas = TRUE, round = 0, todo = {},
   lastRef = <<0, 0>>,                                  \* last refused <<worker, input>> (livelock detection)
   handed = [x \in 1..N |-> <<>>], answered = {}, refusedEver = {},
+  cbres = <<>>,                                        \* results passed to worker_callback(worker, 'finished', result)
+  gen = [x \in 1..N |-> 0],                            \* per-worker callable: the worker input x was generated for
   enqT = 0,                                            \* worker of the enqueue call in progress (read by env)
   ci = 0, lastEnvW = 0, h = <<>>, cis = <<>>;          \* replay bookkeeping (only if Hist)
 
@@ -66,7 +71,8 @@ te0:  \* next_inputs
       if (retries # <<>>) { has := TRUE; fromR := TRUE; inp := Head(retries); retries := Tail(retries) }
       else if (depleted) { has := FALSE }
       else if (nxt > N) { depleted := TRUE; has := FALSE }
-      else { has := TRUE; fromR := FALSE; inp := nxt; nxt := nxt + 1 };
+      else { has := TRUE; fromR := FALSE; inp := nxt; nxt := nxt + 1;
+             if (CallSrc) { gen[inp] := tw } };
 te1:  enqT := tw;
       if (~has) { lastHas := FALSE; return }
       else if (tw \in closed) { Unused(inp, fromR); lastHas := TRUE; return };
@@ -136,7 +142,8 @@ disp:      if (m[1] = "end") {
            } else if (m[1] = "res" /\ ~(IgnoreLate /\ cur \in closed)) {
               if (ppw[cur] = <<>>) { outcome := "internal_error"; goto fin }      \* pop(0) from []
               else {
-                 pending := pending - 1; ppw[cur] := Tail(ppw[cur]); ret := Append(ret, m[2]);
+                 pending := pending - 1; ppw[cur] := Tail(ppw[cur]); cbres := Append(cbres, m[2]);
+                 if (RetRes) { ret := Append(ret, m[2]) };
                  answered := answered \cup {<<cur, m[2]>>};
                  if (cur \notin closed) { call TryEnqueue(cur) }
               }
@@ -181,8 +188,8 @@ e0: while (TRUE) {
 CONSTANT defaultInitValue
 VARIABLES pc, st, inbox, out, qopen, kills, dyraise, pending, ppw, retries, 
           closed, depleted, nxt, ret, outcome, ready, lastHas, round, todo, 
-          lastRef, handed, answered, refusedEver, enqT, ci, lastEnvW, h, cis, 
-          stack
+          lastRef, handed, answered, refusedEver, cbres, gen, enqT, ci, 
+          lastEnvW, h, cis, stack
 
 (* define statement *)
 Idle  == {iw \in W : ppw[iw] = <<>>} \ closed
@@ -194,8 +201,9 @@ VARIABLES tw, has, fromR, inp, dw, offered, cur, m
 
 vars == << pc, st, inbox, out, qopen, kills, dyraise, pending, ppw, retries, 
            closed, depleted, nxt, ret, outcome, ready, lastHas, round, todo, 
-           lastRef, handed, answered, refusedEver, enqT, ci, lastEnvW, h, cis, 
-           stack, tw, has, fromR, inp, dw, offered, cur, m >>
+           lastRef, handed, answered, refusedEver, cbres, gen, enqT, ci, 
+           lastEnvW, h, cis, stack, tw, has, fromR, inp, dw, offered, cur, m
+        >>
 
 ProcSet == {"pool"} \cup {"env"}
 
@@ -222,6 +230,8 @@ Init == (* Global variables *)
         /\ handed = [x \in 1..N |-> <<>>]
         /\ answered = {}
         /\ refusedEver = {}
+        /\ cbres = <<>>
+        /\ gen = [x \in 1..N |-> 0]
         /\ enqT = 0
         /\ ci = 0
         /\ lastEnvW = 0
@@ -248,25 +258,31 @@ te0(self) == /\ pc[self] = "te0"
                         /\ fromR' = [fromR EXCEPT ![self] = TRUE]
                         /\ inp' = [inp EXCEPT ![self] = Head(retries)]
                         /\ retries' = Tail(retries)
-                        /\ UNCHANGED << depleted, nxt >>
+                        /\ UNCHANGED << depleted, nxt, gen >>
                    ELSE /\ IF depleted
                               THEN /\ has' = [has EXCEPT ![self] = FALSE]
-                                   /\ UNCHANGED << depleted, nxt, fromR, inp >>
+                                   /\ UNCHANGED << depleted, nxt, gen, fromR, 
+                                                   inp >>
                               ELSE /\ IF nxt > N
                                          THEN /\ depleted' = TRUE
                                               /\ has' = [has EXCEPT ![self] = FALSE]
-                                              /\ UNCHANGED << nxt, fromR, inp >>
+                                              /\ UNCHANGED << nxt, gen, fromR, 
+                                                              inp >>
                                          ELSE /\ has' = [has EXCEPT ![self] = TRUE]
                                               /\ fromR' = [fromR EXCEPT ![self] = FALSE]
                                               /\ inp' = [inp EXCEPT ![self] = nxt]
                                               /\ nxt' = nxt + 1
+                                              /\ IF CallSrc
+                                                    THEN /\ gen' = [gen EXCEPT ![inp'[self]] = tw[self]]
+                                                    ELSE /\ TRUE
+                                                         /\ gen' = gen
                                               /\ UNCHANGED depleted
                         /\ UNCHANGED retries
              /\ pc' = [pc EXCEPT ![self] = "te1"]
              /\ UNCHANGED << st, inbox, out, qopen, kills, dyraise, pending, 
                              ppw, closed, ret, outcome, ready, lastHas, round, 
                              todo, lastRef, handed, answered, refusedEver, 
-                             enqT, ci, lastEnvW, h, cis, stack, tw, dw, 
+                             cbres, enqT, ci, lastEnvW, h, cis, stack, tw, dw, 
                              offered, cur, m >>
 
 te1(self) == /\ pc[self] = "te1"
@@ -300,8 +316,8 @@ te1(self) == /\ pc[self] = "te1"
              /\ UNCHANGED << st, inbox, out, qopen, kills, dyraise, pending, 
                              ppw, closed, depleted, nxt, ret, outcome, ready, 
                              round, todo, lastRef, handed, answered, 
-                             refusedEver, ci, lastEnvW, h, cis, dw, offered, 
-                             cur, m >>
+                             refusedEver, cbres, gen, ci, lastEnvW, h, cis, dw, 
+                             offered, cur, m >>
 
 tcall(self) == /\ pc[self] = "tcall"
                /\ lastEnvW' = 0
@@ -368,7 +384,7 @@ tcall(self) == /\ pc[self] = "tcall"
                           /\ UNCHANGED << retries, refusedEver >>
                /\ UNCHANGED << st, out, qopen, kills, closed, depleted, nxt, 
                                ret, outcome, ready, round, todo, answered, 
-                               enqT, h, dw, offered, cur, m >>
+                               cbres, gen, enqT, h, dw, offered, cur, m >>
 
 talive(self) == /\ pc[self] = "talive"
                 /\ lastEnvW' = 0
@@ -391,8 +407,8 @@ talive(self) == /\ pc[self] = "talive"
                 /\ UNCHANGED << st, inbox, out, qopen, kills, dyraise, pending, 
                                 ppw, retries, closed, depleted, nxt, ret, 
                                 outcome, ready, lastHas, round, todo, lastRef, 
-                                handed, answered, refusedEver, enqT, h, tw, 
-                                has, fromR, inp, cur, m >>
+                                handed, answered, refusedEver, cbres, gen, 
+                                enqT, h, tw, has, fromR, inp, cur, m >>
 
 te2(self) == /\ pc[self] = "te2"
              /\ IF Retry
@@ -411,8 +427,8 @@ te2(self) == /\ pc[self] = "te2"
              /\ UNCHANGED << st, inbox, out, qopen, kills, dyraise, pending, 
                              ppw, closed, depleted, nxt, ret, outcome, ready, 
                              round, todo, lastRef, handed, answered, 
-                             refusedEver, enqT, ci, lastEnvW, h, cis, dw, 
-                             offered, cur, m >>
+                             refusedEver, cbres, gen, enqT, ci, lastEnvW, h, 
+                             cis, dw, offered, cur, m >>
 
 TryEnqueue(self) == te0(self) \/ te1(self) \/ tcall(self) \/ talive(self)
                        \/ te2(self)
@@ -428,9 +444,9 @@ hd0(self) == /\ pc[self] = "hd0"
              /\ pc' = [pc EXCEPT ![self] = "hd1"]
              /\ UNCHANGED << st, inbox, out, qopen, kills, dyraise, depleted, 
                              nxt, ret, outcome, ready, lastHas, round, todo, 
-                             lastRef, handed, answered, refusedEver, enqT, ci, 
-                             lastEnvW, h, cis, stack, tw, has, fromR, inp, dw, 
-                             offered, cur, m >>
+                             lastRef, handed, answered, refusedEver, cbres, 
+                             gen, enqT, ci, lastEnvW, h, cis, stack, tw, has, 
+                             fromR, inp, dw, offered, cur, m >>
 
 hd1(self) == /\ pc[self] = "hd1"
              /\ IF retries # <<>> /\ (Idle \ offered[self]) # {} /\ outcome = "running"
@@ -463,8 +479,8 @@ hd1(self) == /\ pc[self] = "hd1"
              /\ UNCHANGED << st, inbox, out, qopen, kills, dyraise, pending, 
                              ppw, retries, closed, depleted, nxt, ret, ready, 
                              lastHas, round, todo, lastRef, handed, answered, 
-                             refusedEver, enqT, ci, lastEnvW, h, cis, dw, cur, 
-                             m >>
+                             refusedEver, cbres, gen, enqT, ci, lastEnvW, h, 
+                             cis, dw, cur, m >>
 
 hd2(self) == /\ pc[self] = "hd2"
              /\ pc' = [pc EXCEPT ![self] = Head(stack[self]).pc]
@@ -474,8 +490,8 @@ hd2(self) == /\ pc[self] = "hd2"
              /\ UNCHANGED << st, inbox, out, qopen, kills, dyraise, pending, 
                              ppw, retries, closed, depleted, nxt, ret, outcome, 
                              ready, lastHas, round, todo, lastRef, handed, 
-                             answered, refusedEver, enqT, ci, lastEnvW, h, cis, 
-                             tw, has, fromR, inp, cur, m >>
+                             answered, refusedEver, cbres, gen, enqT, ci, 
+                             lastEnvW, h, cis, tw, has, fromR, inp, cur, m >>
 
 HandleDeath(self) == hd0(self) \/ hd1(self) \/ hd2(self)
 
@@ -488,8 +504,8 @@ p0 == /\ pc["pool"] = "p0"
       /\ UNCHANGED << st, inbox, out, qopen, kills, dyraise, pending, ppw, 
                       retries, closed, depleted, nxt, ret, outcome, ready, 
                       lastHas, round, lastRef, handed, answered, refusedEver, 
-                      enqT, ci, lastEnvW, h, cis, stack, tw, has, fromR, inp, 
-                      dw, offered, cur, m >>
+                      cbres, gen, enqT, ci, lastEnvW, h, cis, stack, tw, has, 
+                      fromR, inp, dw, offered, cur, m >>
 
 p1 == /\ pc["pool"] = "p1"
       /\ IF todo # {} /\ lastHas /\ outcome = "running"
@@ -517,8 +533,8 @@ p1 == /\ pc["pool"] = "p1"
                  /\ UNCHANGED << todo, stack, tw, has, fromR, inp, cur >>
       /\ UNCHANGED << st, inbox, out, qopen, kills, dyraise, pending, ppw, 
                       retries, closed, depleted, nxt, ret, outcome, ready, 
-                      lastHas, lastRef, handed, answered, refusedEver, enqT, 
-                      ci, lastEnvW, h, cis, dw, offered, m >>
+                      lastHas, lastRef, handed, answered, refusedEver, cbres, 
+                      gen, enqT, ci, lastEnvW, h, cis, dw, offered, m >>
 
 loop == /\ pc["pool"] = "loop"
         /\ IF pending > 0 /\ (W \ closed) # {} /\ outcome = "running"
@@ -527,8 +543,8 @@ loop == /\ pc["pool"] = "loop"
         /\ UNCHANGED << st, inbox, out, qopen, kills, dyraise, pending, ppw, 
                         retries, closed, depleted, nxt, ret, outcome, ready, 
                         lastHas, round, todo, lastRef, handed, answered, 
-                        refusedEver, enqT, ci, lastEnvW, h, cis, stack, tw, 
-                        has, fromR, inp, dw, offered, cur, m >>
+                        refusedEver, cbres, gen, enqT, ci, lastEnvW, h, cis, 
+                        stack, tw, has, fromR, inp, dw, offered, cur, m >>
 
 wait == /\ pc["pool"] = "wait"
         /\ Ready # {}
@@ -543,8 +559,8 @@ wait == /\ pc["pool"] = "wait"
         /\ UNCHANGED << st, inbox, out, qopen, kills, dyraise, pending, ppw, 
                         retries, closed, depleted, nxt, ret, outcome, lastHas, 
                         round, todo, lastRef, handed, answered, refusedEver, 
-                        enqT, h, stack, tw, has, fromR, inp, dw, offered, cur, 
-                        m >>
+                        cbres, gen, enqT, h, stack, tw, has, fromR, inp, dw, 
+                        offered, cur, m >>
 
 hdl == /\ pc["pool"] = "hdl"
        /\ IF ready # {} /\ outcome = "running"
@@ -568,9 +584,9 @@ hdl == /\ pc["pool"] = "hdl"
                   /\ UNCHANGED << out, qopen, ready, cur, m >>
        /\ UNCHANGED << st, inbox, kills, dyraise, pending, ppw, retries, 
                        closed, depleted, nxt, ret, outcome, lastHas, round, 
-                       todo, lastRef, handed, answered, refusedEver, enqT, ci, 
-                       lastEnvW, h, cis, stack, tw, has, fromR, inp, dw, 
-                       offered >>
+                       todo, lastRef, handed, answered, refusedEver, cbres, 
+                       gen, enqT, ci, lastEnvW, h, cis, stack, tw, has, fromR, 
+                       inp, dw, offered >>
 
 disp == /\ pc["pool"] = "disp"
         /\ IF m[1] = "end"
@@ -585,18 +601,23 @@ disp == /\ pc["pool"] = "disp"
                               /\ pc' = [pc EXCEPT !["pool"] = "hd0"]
                          ELSE /\ pc' = [pc EXCEPT !["pool"] = "hdl"]
                               /\ UNCHANGED << stack, dw, offered >>
-                   /\ UNCHANGED << pending, ppw, ret, outcome, answered, tw, 
-                                   has, fromR, inp >>
+                   /\ UNCHANGED << pending, ppw, ret, outcome, answered, cbres, 
+                                   tw, has, fromR, inp >>
               ELSE /\ IF m[1] = "res" /\ ~(IgnoreLate /\ cur \in closed)
                          THEN /\ IF ppw[cur] = <<>>
                                     THEN /\ outcome' = "internal_error"
                                          /\ pc' = [pc EXCEPT !["pool"] = "fin"]
                                          /\ UNCHANGED << pending, ppw, ret, 
-                                                         answered, stack, tw, 
-                                                         has, fromR, inp >>
+                                                         answered, cbres, 
+                                                         stack, tw, has, fromR, 
+                                                         inp >>
                                     ELSE /\ pending' = pending - 1
                                          /\ ppw' = [ppw EXCEPT ![cur] = Tail(ppw[cur])]
-                                         /\ ret' = Append(ret, m[2])
+                                         /\ cbres' = Append(cbres, m[2])
+                                         /\ IF RetRes
+                                               THEN /\ ret' = Append(ret, m[2])
+                                               ELSE /\ TRUE
+                                                    /\ ret' = ret
                                          /\ answered' = (answered \cup {<<cur, m[2]>>})
                                          /\ IF cur \notin closed
                                                THEN /\ /\ stack' = [stack EXCEPT !["pool"] = << [ procedure |->  "TryEnqueue",
@@ -618,13 +639,13 @@ disp == /\ pc["pool"] = "disp"
                                          /\ UNCHANGED outcome
                          ELSE /\ pc' = [pc EXCEPT !["pool"] = "hdl"]
                               /\ UNCHANGED << pending, ppw, ret, outcome, 
-                                              answered, stack, tw, has, fromR, 
-                                              inp >>
+                                              answered, cbres, stack, tw, has, 
+                                              fromR, inp >>
                    /\ UNCHANGED << dw, offered >>
         /\ UNCHANGED << st, inbox, out, qopen, kills, dyraise, retries, closed, 
                         depleted, nxt, ready, lastHas, round, todo, lastRef, 
-                        handed, refusedEver, enqT, ci, lastEnvW, h, cis, cur, 
-                        m >>
+                        handed, refusedEver, gen, enqT, ci, lastEnvW, h, cis, 
+                        cur, m >>
 
 done == /\ pc["pool"] = "done"
         /\ IF outcome = "running"
@@ -637,8 +658,8 @@ done == /\ pc["pool"] = "done"
         /\ UNCHANGED << st, inbox, out, qopen, kills, dyraise, pending, ppw, 
                         retries, closed, depleted, nxt, ret, ready, lastHas, 
                         round, todo, lastRef, handed, answered, refusedEver, 
-                        enqT, ci, lastEnvW, h, cis, stack, tw, has, fromR, inp, 
-                        dw, offered, cur, m >>
+                        cbres, gen, enqT, ci, lastEnvW, h, cis, stack, tw, has, 
+                        fromR, inp, dw, offered, cur, m >>
 
 fin == /\ pc["pool"] = "fin"
        /\ TRUE
@@ -646,8 +667,8 @@ fin == /\ pc["pool"] = "fin"
        /\ UNCHANGED << st, inbox, out, qopen, kills, dyraise, pending, ppw, 
                        retries, closed, depleted, nxt, ret, outcome, ready, 
                        lastHas, round, todo, lastRef, handed, answered, 
-                       refusedEver, enqT, ci, lastEnvW, h, cis, stack, tw, has, 
-                       fromR, inp, dw, offered, cur, m >>
+                       refusedEver, cbres, gen, enqT, ci, lastEnvW, h, cis, 
+                       stack, tw, has, fromR, inp, dw, offered, cur, m >>
 
 pool == p0 \/ p1 \/ loop \/ wait \/ hdl \/ disp \/ done \/ fin
 
@@ -691,8 +712,8 @@ e0 == /\ pc["env"] = "e0"
       /\ pc' = [pc EXCEPT !["env"] = "e0"]
       /\ UNCHANGED << qopen, dyraise, pending, ppw, retries, closed, depleted, 
                       nxt, ret, outcome, ready, lastHas, round, todo, lastRef, 
-                      handed, answered, refusedEver, enqT, ci, cis, stack, tw, 
-                      has, fromR, inp, dw, offered, cur, m >>
+                      handed, answered, refusedEver, cbres, gen, enqT, ci, cis, 
+                      stack, tw, has, fromR, inp, dw, offered, cur, m >>
 
 env == e0
 
